@@ -22,7 +22,8 @@ DT = {"f16": torch.float16, "bf16": torch.bfloat16, "f32": torch.float32, "f64":
 QUICK_ALPHABET = ["to_f16", "to_bf16", "to_f32", "to_f64", "double", "half", "to_tensor_f64", "to_inst_f64", "simulate", "reg_f64",
                   "deriv_to_f32", "gdef_f64", "gdef_f32", "eval"]
 FULL_ALPHABET = QUICK_ALPHABET + ["float", "bfloat16", "to_inst_none", "deriv_double", "to_int", "to_kw_f32", "float64", "float16",
-                                  "to_tensor_bf16", "simulate_big"]
+                                  "to_tensor_bf16", "simulate_big", "deriv_half", "deriv_bfloat16", "deriv_float", "deriv_float64",
+                                  "deriv_float16", "deriv_to_tensor_f64"]
 
 
 def make_primary(name):
@@ -75,6 +76,12 @@ def run_sequence(case, ctx):
         other64 = I.BrownianStock(dtype=torch.float64)
         other_none = I.BrownianStock()
         model = Model()
+
+        class PrevHalf(torch.nn.Module):  # parameter-free user model that feeds the previous hedge back
+            def forward(self, input):
+                return 0.5 * input[..., [-1]] + 0.125
+
+        persistent = Hedger(PrevHalf(), ["zeros", "prev_hedge"])  # one long-lived hedger, used all along the history
         sim_names = None
         cast_after_sim = False
         seen_sim = False
@@ -115,7 +122,7 @@ def run_sequence(case, ctx):
 
         for i, o in enumerate(case["ops"]):
             where = f"op#{i} {o}"
-            if seen_sim and (o.startswith("to_") or o in ("double", "half", "float", "bfloat16", "deriv_to_f32", "deriv_double", "float64", "float16")) and o != "to_int" and o != "to_inst_none":
+            if seen_sim and (o.startswith("to_") or o.startswith("deriv_") or o in ("double", "half", "float", "bfloat16", "float64", "float16")) and o != "to_int" and o != "to_inst_none":
                 cast_after_sim = True
             with ctx.sut("C17/" + o, expected=unsupported):
                 if o in ("to_f16", "to_bf16", "to_f32", "to_f64"):
@@ -156,6 +163,14 @@ def run_sequence(case, ctx):
                 elif o == "deriv_double":
                     deriv.double()
                     model.cast(torch.float64)
+                elif o in ("deriv_half", "deriv_bfloat16", "deriv_float", "deriv_float64", "deriv_float16"):
+                    # every cast alias of a derivative forwards to its underlier
+                    getattr(deriv, o[6:])()
+                    model.cast({"half": torch.float16, "bfloat16": torch.bfloat16, "float": torch.float32, "float64": torch.float64,
+                                "float16": torch.float16}[o[6:]])
+                elif o == "deriv_to_tensor_f64":
+                    deriv.to(torch.zeros(1, dtype=torch.float64))
+                    model.cast(torch.float64)
                 elif o == "simulate":
                     simulate(2)
                 elif o == "simulate_big":
@@ -180,6 +195,9 @@ def run_sequence(case, ctx):
                         if case["primary"] in STOCKS:
                             outs.update({"volatility": lambda: ul.volatility, "variance": lambda: ul.variance})
                         outs["naked.compute_pl"] = lambda: Hedger(Naked(), ["zeros"]).compute_pl(deriv)
+                        if mid.is_floating_point and dict(ul.named_buffers())["spot"].shape[1] >= 2:
+                            outs["long-lived-hedger.compute_hedge"] = lambda: persistent.compute_hedge(deriv)
+                            outs["long-lived-hedger.compute_pl"] = lambda: persistent.compute_pl(deriv)
                         for lab, fn in outs.items():
                             r = fn()
                             ctx.check(r.dtype == mid, "C17/output-dtype", f"mid-history {lab} is {r.dtype}, instruments are {mid} (ops {case['ops'][: i + 1]})",
@@ -229,7 +247,7 @@ def run_sequence(case, ctx):
             except Abort:
                 pass
             deriv.delist()
-        hedgers = [("naked", Hedger(Naked(), ["zeros"]))]
+        hedgers = [("naked", Hedger(Naked(), ["zeros"])), ("long-lived", persistent)]
         if dname in OPTIONS and pname in STOCKS and (dname in ("EuropeanOption", "EuropeanBinaryOption")):
             m = BlackScholes(deriv)
             hedgers.append(("bs", Hedger(m, m.inputs())))
